@@ -2031,6 +2031,7 @@ func (s *Server) Serve(ln net.Listener) error {
 				"The connection cannot be served because Server.Concurrency limit exceeded")
 			c.Close()
 			s.setState(c, StateClosed)
+			releasePerIPConn(c)
 			if time.Since(lastOverflowErrorTime) > time.Minute {
 				s.logger().Printf("The incoming connection cannot be served, because %d concurrent connections are served. "+
 					"Try increasing Server.Concurrency", maxWorkersCount)
@@ -2231,6 +2232,7 @@ func (s *Server) ServeConn(c net.Conn) error {
 		s.writeFastError(c, StatusServiceUnavailable, "The connection cannot be served because Server.Concurrency limit exceeded")
 		c.Close()
 		s.setState(c, StateClosed)
+		releasePerIPConn(c)
 		return ErrConcurrencyLimit
 	}
 	defer s.releaseConcurrency()
@@ -2242,6 +2244,7 @@ func (s *Server) ServeConn(c net.Conn) error {
 	if err != errHijacked {
 		errc := c.Close()
 		s.setState(c, StateClosed)
+		releasePerIPConn(c)
 		if err == nil {
 			err = errc
 		}
